@@ -950,6 +950,61 @@ def rule_cancel_reaches(ctx, sites):
     ctx.anchor(n >= 10, f"suspension points under a CancelledError-catching frame in spawned routines: {n} < 10")
 
 
+
+def rule_published(ctx, sites):
+    R = "owner-published"
+    ctx.rep.rule(R, "an object whose constructor starts background tasks (coordinator, fetcher, sender, client) is reachable from stop() as soon "
+                    "as it exists: wherever the package constructs one into a local variable, the attribute through which the stop chain finds "
+                    "it is assigned before the next suspension point on every path -- a stop() (or a cancelled/timed-out start()) that runs "
+                    "while the creator is suspended would otherwise skip its close() and leave its tasks running")
+    # classes whose __init__ spawns (directly or through a method it calls on self)
+    spawning = set()
+    for s in sites:
+        fi = s.fi
+        if fi.owner_cls is None:
+            continue
+        if fi.name == "__init__":
+            spawning.add(fi.owner_cls.qualname)
+        else:
+            init = fi.owner_cls.methods.get("__init__")
+            if init is not None and any(isinstance(n, ast.Call) and call_attr(n) == fi.name and unparse(n.func).startswith("self.") for n in walk_own(init.node)):
+                spawning.add(fi.owner_cls.qualname)
+    # subclasses inherit the constructor
+    for q, ci in ctx.repo.classes.items():
+        for b in ci.node.bases:
+            for sq in list(spawning):
+                if unparse(b) == sq.rsplit(".", 1)[-1] and "__init__" not in ci.methods:
+                    spawning.add(q)
+    short = {q.rsplit(".", 1)[-1]: q for q in spawning}
+    ctx.anchor(len(spawning) >= 3, f"classes whose constructor starts tasks: {sorted(short)}")
+    n = 0
+    for q, fi in sorted(ctx.repo.funcs.items()):
+        if not q.startswith("aiokafka.") or not fi.is_async:
+            continue
+        for st in walk_own(fi.node):
+            if not (isinstance(st, ast.Assign) and isinstance(st.value, ast.Call) and isinstance(st.value.func, ast.Name) and st.value.func.id in short):
+                continue
+            n += 1
+            t = st.targets[0]
+            if isinstance(t, ast.Attribute):
+                ctx.ob(R, fi, st, True, "", text=f"{st.value.func.id}:attribute")
+                continue
+            if not isinstance(t, ast.Name):
+                continue
+            c = ctx.cfg(fi)
+            node = [x for x in c.nodes if x.kind == "stmt" and x.ast is st]
+            if not node:
+                raise AnalysisError(f"owner-published: no CFG node for the construction at line {st.lineno} of {q}")
+            pubs = [x for x in c.nodes if x.kind == "store" and isinstance(x.ast, ast.Attribute) and isinstance(getattr(x.stmt, "value", None), ast.Name)
+                    and x.stmt.value.id == t.id]
+            rets = [x for x in c.nodes if x.kind == "return" and isinstance(x.ast.value, ast.Name) and x.ast.value.id == t.id]
+            after = c.reachable(node, avoid=set(pubs) | set(rets), exc=False)
+            sus = [x for x in after if x.kind in ("await", "yield") and ctx.suspends(fi, x)]
+            ctx.ob(R, fi, st, not sus, f"`{t.id} = {st.value.func.id}(...)` starts background tasks but is only a local while `{unparse(sus[0].ast)[:60] if sus else ''}` "
+                                       f"(line {sus[0].lineno if sus else 0}) suspends: a stop() during that await does not find it and its tasks keep running", text=f"{st.value.func.id}:published-before-await")
+    ctx.anchor(n >= 3, f"constructions of task-owning objects in coroutines: {n} < 3")
+
+
 def run(ctx):
     rep = ctx.rep
     rep.explanation = ("C19: structural clauses of 'stop() terminates and leaves nothing running' decided on the CFGs of the shutdown "
@@ -961,6 +1016,7 @@ def run(ctx):
     rule_release(ctx, sites)
     rule_cancel_await(ctx, sites)
     rule_cancel_reaches(ctx, sites)
+    rule_published(ctx, sites)
     rule_closing_loops(ctx)
     rule_closing_waits(ctx)
     rule_after_stop(ctx)
